@@ -138,6 +138,34 @@ func stubTable() map[string]stubFn {
 		return Tuple{BV(wordBits, uint64(int64(n))), Iface{}}
 	}
 	m["strconv.Quote"] = s1s(strconv.Quote)
+	m["strconv.ParseInt"] = func(in *Interp, fr *frame, args []Value) Value {
+		n, err := strconv.ParseInt(mustStr(fr, args[0], "ParseInt"), argInt(args[1]), argInt(args[2]))
+		if err != nil {
+			return Tuple{BV(64, uint64(n)), in.newError(err.Error())}
+		}
+		return Tuple{BV(64, uint64(n)), Iface{}}
+	}
+	m["strconv.ParseUint"] = func(in *Interp, fr *frame, args []Value) Value {
+		n, err := strconv.ParseUint(mustStr(fr, args[0], "ParseUint"), argInt(args[1]), argInt(args[2]))
+		if err != nil {
+			return Tuple{BV(64, n), in.newError(err.Error())}
+		}
+		return Tuple{BV(64, n), Iface{}}
+	}
+	m["strconv.ParseBool"] = func(in *Interp, fr *frame, args []Value) Value {
+		b, err := strconv.ParseBool(mustStr(fr, args[0], "ParseBool"))
+		if err != nil {
+			return Tuple{Bool(b), in.newError(err.Error())}
+		}
+		return Tuple{Bool(b), Iface{}}
+	}
+	m["strconv.ParseFloat"] = func(in *Interp, fr *frame, args []Value) Value {
+		f, err := strconv.ParseFloat(mustStr(fr, args[0], "ParseFloat"), argInt(args[1]))
+		if err != nil {
+			return Tuple{FloatV{f}, in.newError(err.Error())}
+		}
+		return Tuple{FloatV{f}, Iface{}}
+	}
 	// ---- fmt ----
 	m["fmt.Sprintf"] = func(in *Interp, fr *frame, args []Value) Value {
 		return in.sprintf(fr, args[0], args[1].(Slice))
